@@ -164,6 +164,20 @@ def run(tier, replay=None):
     import gen
     from checks.rt_common import model_check
     mstates, mtrans, mruns = model_check(("Fail",))
+    # how mrp learns of a job that died without a word (spec/Watch.tla): the code's handling of
+    # the "not in the queue" mark, local mode (heartbeat only), and the variant that forgets
+    # the mark on every refresh, which must violate the liveness property
+    for cfg in ("Watch.cfg", "WatchLocal.cfg"):
+        r = vlib.run_tlc("Watch", cfg, workers=4, timeout=900)
+        if not r.ok:
+            raise vlib.Infra("Watch %s violates %s (specification problem)" % (cfg, r.violation))
+        mstates += r.distinct
+        mtrans += r.generated
+        mruns.append("%s: %d distinct states, NoFalseFailure and the liveness property VanishedFails hold" % (cfg, r.distinct))
+    r = vlib.run_tlc("Watch", "WatchBad.cfg", workers=4, timeout=900)
+    if r.ok or r.violation != "VanishedFails":
+        raise vlib.Infra("WatchBad (the mark forgotten on every refresh) does not violate VanishedFails: vacuous (%s)" % r.violation)
+    mruns.append("WatchBad.cfg: VanishedFails violated, as it must be (ClearMark = always); the real runs with vanished cluster jobs let the query interval and then the grace period pass and require the failure")
     rng = random.Random(vlib.seed())
     n = {"quick": 12, "thorough": 120}[tier]
     # map_nested is left out: its top-level outputs are wrong even without a fault
